@@ -572,6 +572,64 @@ func (e *eng) function() {
 	} else {
 		e.s.Bad("S4", key, pos, fmt.Sprintf("a function literal is rewritten in a new scope (pushed on the enclosing table) that holds its parameters at 0..n-1, and its LocalCnt is the size of that scope after the body was rewritten; expected %s, got %s", want, got))
 	}
+	// repeated parameter names: every parameter still owns its slot (the frame
+	// has one slot per argument), so the scope the body sees has n entries with
+	// the slots 0..n-1, the next new local takes slot n, and LocalCnt covers it
+	for _, params := range [][]string{{"p", "p"}, {"p", "q", "p"}, {"p", "p", "p"}} {
+		c2 := e.newCtx()
+		var seen map[string]string
+		inner2 := c2.in.Hooks.Invoke
+		c2.in.Hooks.Invoke = func(in *absint.Interp, recv absint.Val, m *types.Func, args []absint.Val, site ssa.Instruction) (absint.Val, bool) {
+			r, ok := inner2(in, recv, m, args, site)
+			if ch, isC := recv.(*child); isC && ch.name == "body" {
+				if tb, ok := args[0].(*absint.Slice); ok && tb.Len > 0 {
+					if mp, ok := tb.Elems()[tb.Len-1].(*absint.Map); ok {
+						seen = map[string]string{}
+						for k, v := range mp.M {
+							seen[k] = absint.Key(v)
+						}
+						mp.M[absint.Key(absint.MkString("bodyvar"))] = absint.MkInt(int64(len(mp.M)))
+					}
+				}
+			}
+			return r, ok
+		}
+		f2 := append([]absint.Val(nil), z.F...)
+		for i := 0; i < st.NumFields(); i++ {
+			switch st.Field(i).Name() {
+			case "Parameters":
+				var ps []absint.Val
+				for _, n := range params {
+					ps = append(ps, e.nameVal(n))
+				}
+				f2[i] = &absint.Struct{T: st.Field(i).Type(), F: []absint.Val{absint.NewSliceIn(c2.in, e.nodeNm, ps)}}
+			case "Body":
+				f2[i] = &child{name: "body"}
+			}
+		}
+		res2, end2 := c2.in.Run(fn, []absint.Val{&absint.Struct{T: t, F: f2}, e.mkTable(c2.in, nil)})
+		k := fmt.Sprintf("node.Function.STRewrite / repeated parameter names (%s): every argument slot stays owned", strings.Join(params, ", "))
+		if end2 != nil {
+			e.s.Unk("S4", k, pos, "could not be evaluated: "+end2.Error())
+			continue
+		}
+		slots := map[string]bool{}
+		for _, v := range seen {
+			slots[v] = true
+		}
+		dense := len(seen) == len(params) && len(slots) == len(params)
+		for i := range params {
+			if !slots[fmt.Sprint(i)] {
+				dense = false
+			}
+		}
+		got2 := e.render(res2)
+		if dense && strings.HasSuffix(got2, fmt.Sprintf("LocalCnt:%d}", len(params)+1)) {
+			e.s.OK("S4", k, pos, fmt.Sprintf("body scope %v, %s", seen, got2[strings.LastIndex(got2, "LocalCnt"):]))
+		} else {
+			e.s.Bad("S4", k, pos, fmt.Sprintf("CALL pushes one slot per argument and PushFrame adds LocalCnt - ParamCnt more: with a repeated parameter name the scope must still hold %d entries occupying the slots 0..%d, so that the next local takes slot %d and LocalCnt >= ParamCnt; the body sees %v and the result is %s (a scope smaller than the parameter count makes the first new local share a parameter's slot and the frame shorter than its arguments: the return address is read as a variable)", len(params), len(params)-1, len(params), seen, got2))
+		}
+	}
 	// the enclosing scope is not modified
 	if d := tableDesc(outer); d != "[{o=0}]" {
 		e.s.Bad("S4", "node.Function.STRewrite / enclosing scope untouched", pos, "rewriting a function literal changed the enclosing table to "+d)
